@@ -16,7 +16,15 @@
 
    The proofs compute with the generated terms, so they are re-checked against
    whatever the translator produced; a change of a rule body that changes the
-   generated term makes the corresponding lemma fail. *)
+   behaviour of the generated term makes the corresponding lemma fail.  The
+   translator brings a body into a normal form first (literal module
+   constants and helper functions inlined, early `return None` guards turned
+   into nesting, constant locals propagated), so many behaviour-preserving
+   rewrites give the identical term; where they do not (a recorded
+   `start = text.position`, Buffer.num_forward_until, ...) the scripts below
+   are written so that they go through for either form: the loop-free rules are
+   decided by computation on the first two characters, the others run the
+   straight-line parts by `norm` and only fix the loops. *)
 From Coq Require Import List NArith ZArith Bool Lia.
 From TexModel Require Import Base Tables Chars Tokenizer TokDSL TokGen.
 From TexProofs Require Import TokProofs.
@@ -45,14 +53,15 @@ Variables (ev : state -> eres) (body : state -> xres) (p : cchar -> bool)
           (g : option tokv -> cchar -> option tokv) (I : option tokv -> Prop).
 Hypothesis Hev : forall st, ev st = VB (match s_rest st with [] => false | c :: _ => p c end).
 Hypothesis Hbody : forall st c r, s_rest st = c :: r -> I (s_res st) ->
-  body st = XNormal (mks r (c :: s_back st) (g (s_res st) c) (s_map st) (s_key st) (s_point st))
+  body st = XNormal (mks r (c :: s_back st) (g (s_res st) c) (s_map st) (s_key st) (s_point st)
+                         (s_start st) (s_tmp st) (s_int st))
   /\ I (g (s_res st) c).
 
 Lemma while_take l : forall st fuel, s_rest st = l -> I (s_res st) -> (length l < fuel)%nat ->
   while_loop ev body fuel st =
   XNormal (mks (snd (take_while p l)) (rev (fst (take_while p l)) ++ s_back st)
                (fold_left g (fst (take_while p l)) (s_res st))
-               (s_map st) (s_key st) (s_point st)).
+               (s_map st) (s_key st) (s_point st) (s_start st) (s_tmp st) (s_int st)).
 Proof.
   induction l as [|c l IH]; intros st fuel Hl HI Hf.
   - destruct fuel as [|f]; [simpl in Hf; lia|].
@@ -64,7 +73,7 @@ Proof.
     + destruct (Hbody st c l Hl HI) as [Hb HI']. rewrite Hb.
       rewrite (IH _ f); [| reflexivity | exact HI' | simpl in Hf; lia].
       destruct (take_while p l) as [a b].
-      cbn [fst snd s_rest s_back s_res s_map s_key s_point fold_left rev].
+      cbn [fst snd s_rest s_back s_res s_map s_key s_point s_start s_tmp s_int fold_left rev].
       rewrite <- app_assoc. reflexivity.
     + destruct st; simpl in *; subst. reflexivity.
 Qed.
@@ -89,7 +98,7 @@ Proof. induction a as [|c a IH]; intro o; simpl; auto. Qed.
 
 Definition after_loop (p : cchar -> bool) (st : state) (res : option tokv) : state :=
   mks (snd (take_while p (s_rest st))) (rev (fst (take_while p (s_rest st))) ++ s_back st)
-      res (s_map st) (s_key st) (s_point st).
+      res (s_map st) (s_key st) (s_point st) (s_start st) (s_tmp st) (s_int st).
 
 Definition grown (p : cchar -> bool) (st : state) (v : tokv) : option tokv :=
   Some (mkv (v_text v ++ chars_of (fst (take_while p (s_rest st)))) (v_pos v) (v_cat v)).
@@ -153,15 +162,15 @@ Qed.
    simplified and `eval cx cond` is only unfolded when applied to a state) *)
 Ltac norm :=
   cbn;
-  cbv [set_res set_point tok_add position ctx_of init_state with_res none_result
-       after_loop grown];
+  cbv [set_res set_point set_start set_tmp rollback_to tok_add position ctx_of init_state
+       with_res none_result after_loop grown];
   cbn.
 
 (* the test of a loop, on an arbitrary state *)
 Ltac ev_tac :=
   let st := fresh "st" in
   let c := fresh "c" in
-  intro st; destruct st as [[|c ?] ? ? ? ? ?];
+  intro st; destruct st as [[|c ?] ? ? ? ? ? ? ? ?];
   [ reflexivity
   | cbn; unfold is_cat; try reflexivity;
     destruct (cc_beq (ccat c) CLetter); reflexivity ].
@@ -172,8 +181,13 @@ Ltac loop_with lem P :=
     erewrite (lem cx c P ltac:(ev_tac) st); [| try reflexivity; cbn; lia ..]
   end.
 
-Ltac loop_af P := loop_with while_append_forward P.
-Ltac loop_an P := loop_with while_append_next P.
+(* the body of the loop may consume its character with `result +=
+   text.forward(1)`, `result += next(text)` or a bare `text.forward(1)`:
+   whichever lemma fits the generated body is used *)
+Ltac loop_af P :=
+  first [ loop_with while_append_forward P | loop_with while_append_next P ].
+Ltac loop_an P :=
+  first [ loop_with while_append_next P | loop_with while_append_forward P ].
 Ltac loop_sf P := loop_with while_skip_forward P.
 
 (* ------------------------------------------------------- loop-free rules *)
@@ -329,12 +343,12 @@ Lemma xres_eta x :
 Proof. destruct x; reflexivity. Qed.
 
 (* `if result: return result`, then the end of the def *)
-Lemma spacers_fin idx consumed text back r3 m k pt :
+Lemma spacers_fin idx consumed text back r3 m k pt sta tm ni :
   text = chars_of consumed -> back = rev consumed -> head_pos idx (consumed ++ r3) ->
   finish (if nonempty text
           then XReturn (Some (mkv text idx (KTC TMergedSpacer)))
-                       (mks r3 back (Some (mkv text idx (KTC TMergedSpacer))) m k pt)
-          else XNormal (mks r3 back (Some (mkv text idx (KTC TMergedSpacer))) m k pt))
+                       (mks r3 back (Some (mkv text idx (KTC TMergedSpacer))) m k pt sta tm ni)
+          else XNormal (mks r3 back (Some (mkv text idx (KTC TMergedSpacer))) m k pt sta tm ni))
   = ODone (match consumed with
            | [] => RNone
            | _ :: _ => RTok (mk_tok consumed idx TMergedSpacer) r3
@@ -418,8 +432,8 @@ Definition punct_body : block :=
 
 Definition no_empty_point (points : list str) : Prop := Forall (fun p => p <> []) points.
 
-Lemma punct_for cx pts : no_empty_point pts -> forall rest res m k pt,
-  finish (for_points (exec_block cx punct_body) pts (mks rest [] res m k pt)) =
+Lemma punct_for cx pts : no_empty_point pts -> forall rest res m k pt sta tm ni,
+  finish (for_points (exec_block cx punct_body) pts (mks rest [] res m k pt sta tm ni)) =
   ODone (match find_point pts (chars_of rest) with
          | Some p =>
            match firstn (length p) rest with
@@ -429,7 +443,7 @@ Lemma punct_for cx pts : no_empty_point pts -> forall rest res m k pt,
          | None => RNone
          end).
 Proof.
-  induction 1 as [|a pts Ha _ IH]; intros rest res m k pt; [reflexivity|].
+  induction 1 as [|a pts Ha _ IH]; intros rest res m k pt sta tm ni; [reflexivity|].
   unfold for_points; fold for_points. cbn [find_point].
   cbv [punct_body gen_punctuation_command_name blk]. norm. unfold chars_of in *.
   destruct (str_eqb (firstn (length a) (map ch rest)) a) eqn:E.
